@@ -104,6 +104,8 @@ ImplProps ==
      c12_rect     |-> ok => P_C12_Rect(d.ast, ix),
      c13          |-> ok => (safe /\ P_C13_DocStrings(d.lines, d.toks, d.ast, ix)),
      c14_once     |-> P_C14_Once(d.errs),
+     \* (evaluated where the harness asks for it: it needs a second run of the specification for the matcher states)
+     c14_iff      |-> d.iff = 1 => P_C14_Iff(d.lines, TLCEval(RunAll(d.lines, d.dialect, d.nid0, CapOf(d.mode))), d.ok = 0),
      c18_accepted |-> ok => P_C18_Accepted(d.lines, d.toks),
      c18_partition|-> P_C18_Partition(d.lines, d.toks, d.errs, CapOf(d.mode)) ]
 EndDetail(v) ==
